@@ -157,9 +157,6 @@ def split_iter(src, sep=None, maxsplit=None):
 
     if maxsplit is not None:
         maxsplit = int(maxsplit)
-        if maxsplit == 0:
-            yield [src]
-            return
 
     if callable(sep):
         sep_func = sep
@@ -173,8 +170,11 @@ def split_iter(src, sep=None, maxsplit=None):
     split_count = 0
     for s in src:
         if maxsplit is not None and split_count >= maxsplit:
-            def sep_func(x): return False
-        if sep_func(s):
+            # out of splits, the rest forms the last group. Like
+            # str.split(None, n), separators leading the rest are dropped
+            if cur_group or sep is not None or not sep_func(s):
+                cur_group.append(s)
+        elif sep_func(s):
             if sep is None and not cur_group:
                 # If sep is none, str.split() "groups" separators
                 # check the str.split() docs for more info
